@@ -1,9 +1,10 @@
 (* Extraction of the executable models (ExtrOcamlBasic only: bool/option/unit/list/prod/sumbool
    become the OCaml types; N, Z, positive, nat stay Coq datatypes). *)
 From Coq Require Import Extraction ExtrOcamlBasic.
-From GGRS Require Import Base Varint Rle Codec.
+From GGRS Require Import Base Varint Rle Codec Builder.
 (* Z is used by every level driver *)
 From Coq Require Import ZArith.
 Extraction Language OCaml.
 Extraction "model.ml" Z.add N.add Nat.add
-  Codec.encode Codec.decode Codec.decode_unvalidated.
+  Codec.encode Codec.decode Codec.decode_unvalidated
+  Builder.run_calls.
